@@ -35,6 +35,7 @@ REACH = {
               "skip_negative_block": 100, "nested_multiblock": 50,
               "bad_union_read_neg": 50, "bad_union_read_high": 50, "bad_union_skip_neg": 50,
               "bad_union_skip_high": 50, "bad_enum_read_neg": 50, "bad_enum_read_high": 50,
+              "bad_enum_resolved_high": 50, "bad_enum_resolved_neg": 50, "bad_union_resolved_high": 50, "read_through_equivalent_reader": 1000,
               "prefix_in_varint": 200, "prefix_in_float": 200, "prefix_in_string": 200,
               "prefix_between": 200},
     "thorough": {"layouts_read": 100000},
@@ -151,6 +152,34 @@ def wrap_bytes(body, how, rng):
     return RB.enc_long(1) + body
 
 
+def reader_variant(js):
+    """The same schema as a *different* reader schema: every enum gets a default, every named
+    type a doc.  Resolution is then in force although every value is kept as it is."""
+    def walk(n):
+        if isinstance(n, list):
+            return [walk(b) for b in n]
+        if isinstance(n, dict):
+            out = dict(n)
+            t = n.get("type")
+            if t == "enum":
+                out.setdefault("default", n["symbols"][0])
+                out["doc"] = "reader side"
+            elif t == "fixed":
+                out["doc"] = "reader side"
+            elif t in ("record", "error"):
+                out["doc"] = "reader side"
+                out["fields"] = [dict(f, type=walk(f["type"])) for f in n["fields"]]
+            elif t == "array":
+                out["items"] = walk(n["items"])
+            elif t == "map":
+                out["values"] = walk(n["values"])
+            elif isinstance(t, (dict, list)):
+                out["type"] = walk(t)
+            return out
+        return n
+    return walk(copy.deepcopy(js))
+
+
 def read_direct(fa, schema_arg, data):
     return fa.schemaless_reader(io.BytesIO(data), schema_arg)
 
@@ -220,6 +249,16 @@ def one_case(sh, fa, rng, case, tier):
     data = canon
     tree = RB.decode_all(node, data)
     w, r = wrap_schema(js, "bare")
+    rvar = reader_variant(js)
+    if rvar == js:
+        rvar = None
+    else:
+        st, got = guard(read_skip, fa, parsed, rvar, data)
+        if st == "exc" or not RC.same(got, expected):
+            sh.violation("valid-encoding-misread", "read through an equivalent reader schema (docs, enum defaults added): %s, independent decoder gives %s"
+                         % (exc_name(got) if st == "exc" else printable(got, 200), printable(expected, 200)), dict(info0, reader=rvar))
+            return
+        sh.count("read_through_equivalent_reader")
     for what, n, s, e in list(RB.index_positions(node, tree))[:12]:
         for bad in (-1, -n, -(n + 1), n, n + 1, 1 << 31, 1 << 62):
             mutated = data[:s] + RB.enc_long(bad) + data[e:]
@@ -234,6 +273,12 @@ def one_case(sh, fa, rng, case, tier):
             if st == "ok":
                 sh.violation("bad-index-accepted", "%s index %d (of %d) on the read path returned %s" % (what, bad, n, printable(got, 200)), info)
                 return
+            if rvar is not None:
+                st, got = guard_timed(3.0, read_skip, fa, parsed, rvar, mutated)
+                sh.count("bad_%s_resolved_%s" % (what, cls))
+                if st == "ok":
+                    sh.violation("bad-index-accepted", "%s index %d (of %d) read through a reader schema returned %s" % (what, bad, n, printable(got, 200)), dict(info, reader=rvar))
+                    return
             st, got = guard_timed(3.0, read_skip, fa, w, r, mutated + b"\x02")
             sh.count("bad_%s_skip_%s" % (what, cls))
             if st == "hang":
